@@ -99,7 +99,7 @@ fn listing(dir: &Path, prefix: &str, depth: usize, out: &mut BTreeMap<String, Va
 }
 
 /// The `verify` op, see DESIGN.md §2.
-pub fn verify(case: &Value, scratch: &Path, idx: usize) -> Value {
+pub fn verify(case: &Value, reg: &Registry, scratch: &Path, idx: usize) -> Value {
     let root = scratch.join(format!("c{}", idx));
     let _ = std::fs::remove_dir_all(&root);
     let links = root.join("links");
@@ -215,6 +215,31 @@ pub fn verify(case: &Value, scratch: &Path, idx: usize) -> Value {
             }
         };
         let mut layout = layout;
+        if let Some(b) = case.get("build_in_memory") {
+            // the layout is not read from text at all: it is built with the public builders, changed in memory
+            // through its public fields, THEN signed, and handed to the verifier as the value it is
+            let built = guarded(|| -> Result<Metablock, String> {
+                let meta = crate::api_build::build(&b["doc"])?;
+                let mut mb = Metablock { signatures: Vec::new(), metadata: meta };
+                if let Some(kind) = b["mem_edit"].as_str() {
+                    crate::util::mem_edit(&mut mb, kind);
+                }
+                let names = strs(&b["signers"]).unwrap_or_default();
+                let keys: Vec<&in_toto::crypto::PrivateKey> = names.iter().map(|n| reg.get(n)).collect();
+                Metablock::new(mb.metadata, &keys).map_err(|e| e.to_string())
+            });
+            match built {
+                Ok(Ok(mb)) => layout = mb,
+                Ok(Err(e)) => {
+                    runs.push(json!({"v": "build_err", "e": e}));
+                    break;
+                }
+                Err(p) => {
+                    runs.push(json!({"v": "build_err", "e": p}));
+                    break;
+                }
+            }
+        }
         if let Some(kind) = case.get("mem_edit").and_then(|v| v.as_str()) {
             let before = layout.metadata.clone();
             o["mem_edit_applied"] = json!(crate::util::mem_edit(&mut layout, kind));
@@ -222,7 +247,9 @@ pub fn verify(case: &Value, scratch: &Path, idx: usize) -> Value {
         }
         let keymap: HashMap<KeyId, PublicKey> = pairs.iter().cloned().collect();
         let t0 = now_ns();
+        let guard = crate::util::NoReturnGuard::arm(case.get("call_timeout_s").and_then(|v| v.as_u64()));
         let r = guarded(|| in_toto_verify(&layout, keymap, &link_dir, step_name));
+        drop(guard);
         let t1 = now_ns();
         let mut run = match r {
             Ok(Ok(summary)) => {
